@@ -93,23 +93,32 @@ def r17_1(ctx):
     for crate in (ctx.lib, ctx.bin):
         want = rv[crate.kind]
         inv = inventory(crate)
+        per_file = {}
         for fn, ops in sorted(inv.items()):
-            for op, cnt in sorted(ops.items()):
-                allowed = want.get(fn, {}).get(op, {}).get("count", 0)
+            b = crate.by_id[fn]
+            for op, cnt in ops.items():
+                e = per_file.setdefault(b.file, {}).setdefault(op, [0, b])
+                e[0] += cnt
+        for f, ops in sorted(per_file.items()):
+            for op, (cnt, b) in sorted(ops.items()):
+                allowed = want.get(f, {}).get(op, {}).get("count", 0)
                 ok = cnt <= allowed
-                b = crate.by_id[fn]
-                ctx.ob(f"{crate.kind}:{fn}:{op}", ok, site(b), f"{cnt} site(s), reviewed: {allowed} — {want.get(fn, {}).get(op, {}).get('why', 'NOT REVIEWED')}" if ok else f"unreviewed unsafe operation `{op}` ({cnt} site(s), {allowed} reviewed) in {fn}")
-        # unsafe blocks outside reviewed functions
+                ctx.ob(f"{crate.kind}:{f}:{op}", ok, site(b), f"{cnt} site(s), reviewed: {allowed} — {want.get(f, {}).get(op, {}).get('why', 'NOT REVIEWED')[:300]}" if ok else f"unreviewed unsafe operation `{op}` in {f} ({cnt} site(s), {allowed} reviewed for this file)")
+        # unsafe blocks / unsafe fns per file
+        nblk = {}
         for u in crate.unsafe_blocks:
-            if u["from_expansion"]:
-                continue
-            root = u["owner"]
-            ok = root in want or any(root.startswith(k + "::{closure") for k in want)
-            ctx.ob(f"{crate.kind}:unsafe-block:{root}:{_nth_block(crate, u)}", ok, f"{u['span']['file']}:{u['span']['line']} {root}", "unsafe block in a reviewed function" if ok else "unsafe block in a function with no reviewed unsafe operations")
+            if not u["from_expansion"]:
+                nblk[u["span"]["file"]] = nblk.get(u["span"]["file"], 0) + 1
+        for f, n_ in sorted(nblk.items()):
+            allowed = rv.get("unsafe_blocks", {}).get(crate.kind, {}).get(f, 0)
+            ctx.ob(f"{crate.kind}:unsafe-blocks:{f}", n_ <= allowed, f, f"{n_} unsafe block(s), {allowed} reviewed" if n_ <= allowed else f"{n_} unsafe block(s) in {f}, only {allowed} reviewed")
+        nfn = {}
         for b in crate.bodies:
             if b.raw.get("unsafe_fn"):
-                ok = b.id in rv.get(crate.kind + "_unsafe_fns", [])
-                ctx.ob(f"{crate.kind}:unsafe-fn:{b.id}", ok, site(b), "reviewed unsafe fn" if ok else "unreviewed `unsafe fn`")
+                nfn[b.file] = nfn.get(b.file, 0) + 1
+        for f, n_ in sorted(nfn.items()):
+            allowed = rv.get(crate.kind + "_unsafe_fns", {}).get(f, 0)
+            ctx.ob(f"{crate.kind}:unsafe-fns:{f}", n_ <= allowed, f, f"{n_} `unsafe fn`(s), {allowed} reviewed" if n_ <= allowed else f"{n_} `unsafe fn`(s) in {f}, only {allowed} reviewed")
     hs = deny.hits(list(ctx.facts.all_bodies()), "unsafe-producers")
     hs = [h for h in hs if not h[3].get("exp")]
     for entry, b, bb, t in hs:
